@@ -530,7 +530,10 @@ func (h *handler1) handleConnect(ctx context.Context, snConnect *snPkts1.Connect
 		return h.snSend(snPkts1.NewConnack(snPkts1.RC_NOT_SUPPORTED))
 	}
 
-	if h.state.Get() == util.StateAwake {
+	// A CONNECT in the asleep or awake state only signalizes the transition
+	// to the active state, it does not start a new connection.
+	// See doc/specification-interpretation.md.
+	if state := h.state.Get(); state == util.StateAwake || state == util.StateAsleep {
 		h.setState(util.StateActive)
 		return h.snSend(snPkts1.NewConnack(snPkts1.RC_ACCEPTED))
 	}
@@ -783,7 +786,11 @@ func (h *handler1) handleMqttSn(ctx context.Context, pkt snPkts.Packet) error {
 				}
 			}
 			h.pktBuffer = nil
-			return h.snSend(snPkts1.NewPingresp())
+			err := h.snSend(snPkts1.NewPingresp())
+			// The client goes back to sleep after PINGRESP.
+			// See MQTT-SN specification v. 1.2, chapter 6.14.
+			h.setState(util.StateAsleep)
+			return err
 		} else {
 			mqPkt := mqPkts.NewControlPacket(mqPkts.Pingreq).(*mqPkts.PingreqPacket)
 			return h.mqttSend(mqPkt)
@@ -807,7 +814,13 @@ func (h *handler1) handleMqttSn(ctx context.Context, pkt snPkts.Packet) error {
 				cancelPinger := h.startSleepPinger(ctx)
 				time.AfterFunc(time.Duration(snPkt.Duration)*time.Second, cancelPinger)
 			}
-			h.pktBuffer = nil
+			if h.state.Get() == util.StateAsleep {
+				// The client prolongs its sleep: keep the queued packets
+				// and do not queue the reply.
+				h.setState(util.StateAwake)
+			} else {
+				h.pktBuffer = nil
+			}
 			m2 := snPkts1.NewDisconnect(0)
 			if err := h.snSend(m2); err != nil {
 				return err
